@@ -36,6 +36,14 @@ def run(ctx):
                         ents.append({"path": "kk/" + pth, "kind": kind, "mode": 0o755 if kind == "d" else 0o644, "mtime": 1700000000,
                                      **({"size": r.choice([1, 2, 5])} if kind == "f" else {})})
                 ents.sort(key=lambda e: (e["path"].count("/"), e["path"]))
+            if t % 4 == 2:
+                # a key column that mixes numbers and text (extensions 9, 10, 7z, 2b, 100, 1e1): ORDER BY over the group rows
+                # needs one consistent order for them — numbers by value first, then the rest as text
+                have = {e["path"] for e in ents}
+                for k, ext in enumerate(["9", "10", "7z", "100", "2b", "1e1", "a", "05", "5", "txt"] * 3):
+                    pth = "mix%d.%s" % (k, ext)
+                    if pth not in have:
+                        ents.append({"path": pth, "kind": "f", "size": r.choice([1, 2, 5]), "mode": 0o644, "mtime": 1700000000})
             snap = corr.Snap(scratch, ents, subdir="t%d" % t)
             for _ in range(per_tree):
                 gk = r.sample(GKEYS, r.range(1, 2))
@@ -139,8 +147,8 @@ def run(ctx):
                         except ValueError:
                             return (1, c)
                     ks = [keyf(c) for c in col]
-                    allint = all(k[0] == 0 for k in ks)
-                    if allint or all(k[0] == 1 for k in ks):
+                    # (numbers before everything that is no number: one order for a mixed column, D80)
+                    if True:
                         srt = sorted(ks, reverse=desc)
                         if ks != srt:
                             ctx.oracle_fail("ORDER BY does not sort the group rows", case, detail={"column": [c.decode("utf-8", "replace") for c in col][:10]})
